@@ -71,6 +71,18 @@ def build(xknx):
     d.async_add(TimeDevice(xknx, "ti", group_address=ga(), localtime=False))
     d.async_add(Weather(xknx, "we", group_address_temperature=ga(), group_address_brightness_south=ga(), group_address_wind_speed=ga(), group_address_wind_bearing=ga(),
                         group_address_rain_alarm=ga(), group_address_air_pressure=ga(), group_address_humidity=ga(), group_address_day_night=ga()))
+    # devices sharing addresses with the ones above (the decoded value of one telegram is handed to all of them) and having addresses of their own
+    byname = {dv.name: dv for dv in xknx.devices}
+    li = byname["li"]
+    shared = {"group_address_xyy_color_state": str(li.xyy_color.group_address_state), "group_address_rgbw_state": str(li.rgbw.group_address_state),
+              "group_address_color_state": str(li.color.group_address_state), "group_address_brightness_state": str(li.brightness.group_address_state)}
+    d.async_add(Light(xknx, "li2", group_address_switch=ga(), group_address_xyy_color=ga(), group_address_rgbw=ga(), group_address_color=ga(), group_address_brightness=ga(),
+                      **shared))
+    d.async_add(Light(xknx, "li3", group_address_switch=ga(), group_address_xyy_color=ga(), group_address_xyy_color_state=shared["group_address_xyy_color_state"]))
+    d.async_add(Sensor(xknx, "se2_xyy", group_address_state=shared["group_address_xyy_color_state"], value_type="color_xyy"))
+    d.async_add(Sensor(xknx, "se2_temperature", group_address_state=str(byname["se_temperature"].sensor_value.group_address_state), value_type="temperature"))
+    d.async_add(Switch(xknx, "sw2", group_address=ga(), group_address_state=str(byname["sw"].switch.group_address_state)))
+    d.async_add(Cover(xknx, "co2", group_address_long=ga(), group_address_position=ga(), group_address_position_state=str(byname["co"].position_current.group_address_state)))
     gas = {}
     for dev in xknx.devices:
         for rv in dev._iter_remote_values():
@@ -127,6 +139,19 @@ def run(ck):
                 xb, _ = make_xknx(loop)
                 gas = build(xa)
                 build(xb)
+                byname = {dv.name: dv for dv in xa.devices}
+                shared_addrs = {str(byname["li"].xyy_color.group_address_state), str(byname["li"].rgbw.group_address_state), str(byname["li"].color.group_address_state),
+                                str(byname["li"].brightness.group_address_state)}
+                # directed: a complete colour on the shared state address, then partly valid colours on the addresses only one of the devices has
+                li2 = byname["li2"]
+                directed = [(str(byname["li"].xyy_color.group_address_state), DPTArray((0x4C, 0xCC, 0x66, 0x66, 100, 0x03))),
+                            (str(li2.xyy_color.group_address), DPTArray((0x19, 0x99, 0x33, 0x33, 200, 0x01))),
+                            (str(byname["li3"].xyy_color.group_address), DPTArray((0x10, 0x00, 0x20, 0x00, 50, 0x02))),
+                            (str(byname["li"].rgbw.group_address_state), DPTArray((10, 20, 30, 40, 0, 0x0F))),
+                            (str(li2.rgbw.group_address), DPTArray((7, 0, 0, 0, 0, 0x08))),
+                            (str(byname["li"].rgbw.group_address), DPTArray((0, 0, 0, 99, 0, 0x01))),
+                            (str(byname["li"].xyy_color.group_address_state), DPTArray((0x4C, 0xCC, 0x66, 0x66, 100, 0x02))),
+                            (str(li2.xyy_color.group_address), DPTArray((0x19, 0x99, 0x33, 0x33, 1, 0x01)))]
                 kind = ["own", "same_shape", "kin", "other_shape", "mixed", "mixed"][rd % 6]
                 table, tkind = {}, {}
                 for a, rv in gas.items():
@@ -136,6 +161,8 @@ def run(ck):
                         base = rnd.choice([c for c in DPTBase.dpt_class_tree() if c.dpt_main_number in (1, 5, 9, 14, 20)])
                     same, kin, diff = other_types(base, rnd)
                     k = kind if kind != "mixed" else rnd.choice(["own", "same_shape", "kin", "other_shape", "absent", "invalid"])
+                    if rd % 3 != 2 and a in shared_addrs:
+                        k = "own"          # the addresses several devices listen to: listed with their own type in two rounds of three
                     if k == "own":
                         t = base
                     elif k == "same_shape" and same:
@@ -164,19 +191,24 @@ def run(ck):
                 await start_xknx(xb)
                 addrs = sorted(gas)
                 known_diff = set()
-                for _ in range(700 if ck.tier == "quick" else 3000):
+                for step in range(700 if ck.tier == "quick" else 3000):
                     a = rnd.choice(addrs)
                     rv = gas[a]
                     own = rv.dpt_class or getattr(rv, "_internal_dpt_class", None)
                     L = own.payload_length if own is not None and own.payload_type is DPTArray else None
                     r = rnd.random()
-                    if r < 0.25:
+                    if step < 3 * len(directed) and step % 3 == 0:
+                        a, p = directed[step // 3]
+                        rv = gas[a]
+                    elif r < 0.25:
                         p = DPTBinary(rnd.choice((0, 1, 1, 2, 3, 7, 8, 15, 63)))
                     elif r < 0.8 and L:
                         p = DPTArray(tuple(rnd.choice(EDGE) if rnd.random() < 0.4 else rnd.randrange(256) for _ in range(L)))
                     else:
                         p = DPTArray(tuple(rnd.randrange(256) for _ in range(rnd.choice((1, 1, 2, 2, 3, 4, 6, 8, 14)))))
                     pay = rnd.choice([GroupValueWrite(p), GroupValueWrite(p), GroupValueResponse(p), GroupValueRead()])
+                    if step < 3 * len(directed) and step % 3 == 0:
+                        pay = GroupValueWrite(p)
                     na, nb = len(seen["a"]), len(seen["b"])
                     for x in (xa, xb):
                         x.telegrams.put_nowait(Telegram(destination_address=GroupAddress(a), direction=TelegramDirection.INCOMING, payload=pay,
